@@ -149,6 +149,17 @@ def run(ctx_or_c, **kw):  # noqa: F811  (dispatch: the harness calls run(ctx); h
     return out
 
 
+def zero_dof_case(ctx, rng):
+    """as many observations as unknowns (double-ended, one time step, two splices, three reference stretches of two locations: 12 and
+    12): the residual variance is 0/0.  Such a calibration has to be refused; if it returns, everything has to be finite"""
+    a0 = rng.randint(3, 5)
+    nx = a0 + 16
+    layout = dict(ref_blocks=[(a0, a0 + 1, 0), (a0 + 4, a0 + 5, 1), (a0 + 8, a0 + 9, 0)], match_blocks=[], trans_idx=[(a0 - 2, False), (a0 + 12, False)])
+    c = fibre.make_case(rng, double=True, nx=nx, nt=1, layout=layout, noise=0.005, var_kind="float", irregular=False)
+    one(ctx, c, None, "pos", "no residual degrees of freedom (12 observations, 12 unknowns)", must_raise=False)
+    ctx.count("zero degrees of freedom")
+
+
 def run_ctx(ctx):
     n = 2 if ctx.quick else 12
     for k in range(n):
@@ -156,6 +167,7 @@ def run_ctx(ctx):
         c = fibre.make_case(ctx.rng, double=double, nx=ctx.rng.randint(12, 20), nt=ctx.rng.randint(2, 3), n_baths=2, n_stretch=3,
                             nta=ctx.rng.choice([0, 1]), n_match=0, noise=0.005, var_kind=ctx.rng.choice(["float", "array"]))
         corrupt_all(ctx, c)
+    zero_dof_case(ctx, ctx.rng)
 
 
 def search(ctx):
